@@ -234,6 +234,31 @@ static Json::Value genC18(Rng& rng) {
       plan["faults"].append(f);
     }
   }
+  // a managed cgroup restarted (removed and re-created under its name) or
+  // removed in the middle of a tick, between two of senpai's file accesses
+  // (senpai detects memory.reclaim / memory.high.tmp support once, on the
+  // first cgroup it looks at: half of the restarts land among the first file
+  // accesses of the first tick)
+  if (rng.chance(0.35) && !paths.empty()) {
+    int ne = (int)rng.range(1, 2);
+    for (int i = 0; i < ne; i++) {
+      Json::Value e(Json::objectValue);
+      bool early = i == 0 && rng.chance(0.5);
+      e["tick"] = early ? 0 : (int)rng.range(0, ticks - 1);
+      e["at"] = (Json::Int64)(early ? rng.range(3, 12) : rng.range(0, 60));
+      std::string p = rng.pick(paths);
+      e["op"]["cg"] = p;
+      if (rng.chance(0.75)) {
+        e["op"]["op"] = "recreate";
+        Json::Value sp = spec(p, ++salt);
+        sp.removeMember("path");
+        e["op"]["v"] = sp;
+      } else {
+        e["op"]["op"] = "rm";
+      }
+      plan["edits"].append(e);
+    }
+  }
   plan["clock_off"] = (Json::Int64)rng.range(0, 999999999);
   return plan;
 }
@@ -346,6 +371,22 @@ static void runC18() {
       violate("C18.write-outside-senpai", e.str());
       return;
     }
+    if (!c) {
+      // an incarnation created in the middle of this tick (mid-tick restart):
+      // its files as senpai saw them are not in the tick-start snapshot; only
+      // the target is judged, and the write is remembered
+      Cg* live = W.byInc(e.inc);
+      if (live && matchesPatterns(patInv, live->rel, false)) {
+        if (e.res == 0 && (e.a == "memory.high" || e.a == "memory.high.tmp")) {
+          seen.insert(e.inc);
+          lastWritten[e.inc] = strtoll(e.b.c_str(), nullptr, 10);
+          if (pendingPoke && pendingPoke->inc == e.inc)
+            pendingPoke.reset();
+        }
+        probe("writes-to-mid-tick-incarnation");
+        continue;
+      }
+    }
     if (!c || !matchesPatterns(patInv, c->rel, false)) {
       violate("C18.target-matches-cgroup-arg",
               "tick " + std::to_string(t) + ": write " + e.a + "=" + e.b +
@@ -439,6 +480,14 @@ static void runC18() {
         return;
       }
       continue;
+    }
+    if (e.a == "memory.high" && c->has_high_tmp) {
+      violate("C18.high-written-despite-tmp",
+              ctxStr() + ": wrote memory.high=" + val +
+                  " although this kernel has memory.high.tmp (the "
+                  "administrator's memory.high is overwritten and no longer "
+                  "bounds the limit)");
+      return;
     }
     if (e.a != "memory.high" && e.a != "memory.high.tmp") {
       violate("C18.unexpected-control-file",
